@@ -3,6 +3,7 @@ import InovesaModel.Model.KickMap
 import InovesaModel.Model.Ruler
 import InovesaModel.Model.FokkerPlanck
 import InovesaModel.Model.RFDrift
+import InovesaModel.Model.PhaseSpace
 open Inovesa
 namespace Driver
 
@@ -16,6 +17,7 @@ structure Case where
   parts : Array Float32 := #[]
   aux : Array Float32 := #[]
   aux2 : Array Float32 := #[]
+  words : Array String := #[]
 
 def floats (ts : List String) : Array Float32 :=
   (ts.map fun s => (f32ofHex? s).getD (Float32.ofBits 0x7fc00000)).toArray
@@ -168,6 +170,42 @@ def runDrift (c : Case) : List String :=
   let off : Array Float32 := ((List.range (n * nb)).map fun r => if r < n then offRow r else f32zero).toArray
   ["case " ++ c.id, hexLine "off" off.toList] ++ kickOutputs "x" n it nb 0 off c.data
 
+instance : VarAcc Float32 where
+  -- var = (float)((double)var + (double)proj * pow((double)d, 2))
+  accSq v p d := (v.toFloat + p.toFloat * (d.toFloat * d.toFloat)).toFloat32
+
+def psPrint (k : PSConst Float32) (s : PSState Float32) : List String :=
+  [hexLine "out" s.data.toList,
+   hexLine "vals" (s.proj0.toList ++ s.proj1.toList ++ s.filling.toList ++ [s.integral]
+     ++ s.mean.toList ++ s.var.toList ++ s.rms.toList)]
+
+/-- ps <id> <n> <nb> ; extra = qmin qmax pmin pmax ; off = filling_set ; data ; ops -/
+def runPS (c : Case) : List String :=
+  let n := natArg c 2
+  let nb := natArg c 3
+  let e := fun i => c.extra.getD i f32zero
+  let k : PSConst Float32 := { n := n, nb := nb, ax0 := { steps := n, min := e 0, max := e 1 },
+                               ax1 := { steps := n, min := e 2, max := e 3 },
+                               fset := c.off, pos := c.off.map fun f => decide (f > 0) }
+  -- the constructor refuses fillings not normalised to 1e-5
+  let s0 := psConstruct k c.data
+  let (_, lines) := c.words.foldl (fun (acc : PSState Float32 × List String) op =>
+    let (s, out) := acc
+    match op with
+    | "x" => (psXProj k s, out)
+    | "y" => (psYProj k s, out)
+    | "i" => (psIntegrate k s, out)
+    | "n" => (psNormalize k s, out)
+    | "N" => (psNormalize k (psIntegrate k s), out)
+    | "a0" => (psAverage k 0 s, out)
+    | "a1" => (psAverage k 1 s, out)
+    | "v0" => (psVariance Float32.sqrt k 0 s, out)
+    | "v1" => (psVariance Float32.sqrt k 1 s, out)
+    | "c" => (psCopy k s, out)
+    | "p" => (s, out ++ psPrint k s)
+    | _ => (s, out ++ ["error unknown-op " ++ op])) (s0, [])
+  ["case " ++ c.id] ++ lines
+
 def dispatch (c : Case) : List String :=
   match c.kind with
   | "kick" => runKick c
@@ -175,6 +213,7 @@ def dispatch (c : Case) : List String :=
   | "fp" => runFP c
   | "ident" => runIdent c
   | "rf" => runRF c
+  | "ps" => runPS c
   | "drift" => runDrift c
   | k => ["case " ++ c.id, "error unknown-kind " ++ k]
 
